@@ -361,6 +361,16 @@ func vpH_step_L_MsgAppResp_from2_lean() {
 	vpStepCell(StateLeader, o, vpMsgOpts{typ: pb.MsgAppResp})
 }
 
+// the same on a joint configuration ({1,2,3}&&{1,2}) and with a learner peer
+func vpH_step_L_MsgAppResp_from2_joint() {
+	vpFromOnly = 2
+	o := vpDefaultOpts(StateLeader)
+	o.ls, o.lu = 0, 1
+	o.shapes = []int{1, 3}
+	o.plainData = true
+	vpStepCell(StateLeader, o, vpMsgOpts{typ: pb.MsgAppResp})
+}
+
 func vpH_step_L_MsgProp_lean() {
 	o := vpDefaultOpts(StateLeader)
 	o.ls, o.lu = 0, 1
